@@ -276,6 +276,20 @@ func (b Box[T]) Val() int { return b.n + 900 }
 // MyInt has the GC shape of int
 type MyInt int
 
+var pickSink int
+
+// Pick is a generic function (not a method): its instantiations are mocked through Builder.Func
+//
+//go:noinline
+func Pick[T any](seed int) (t T, n int) {
+	if seed < -10000 {
+		pickSink += seed
+		fmt.Println("never", seed)
+	}
+	pickSink++
+	return t, seed*3 + 40
+}
+
 // Chain: methods whose bodies begin by calling another generic method (or a generic function) of the same instantiation
 
 //go:noinline
@@ -458,6 +472,60 @@ func TestC06Generics(t *testing.T) {
 		for j, o := range insts {
 			if got := o.get(7); got != orig[j] {
 				rep.Violate("C06/not-restored", fmt.Sprintf("after Reset of equal-shape mocks, %s = %d want %d", o.name, got, orig[j]), nil)
+			}
+		}
+	}
+	// instantiations of one generic function mocked through one builder, then Reset: each gives its own stubbed value
+	// while mocked, asking again for one of them continues that one's configuration, and the Reset brings all of them back
+	{
+		type pk struct {
+			name string
+			call func() int
+			mock func(b *mocker.Builder, v int)
+		}
+		pks := []pk{
+			{"Pick[int]", func() int { _, n := Pick[int](2); return n }, func(b *mocker.Builder, v int) { b.Func(Pick[int]).Return(0, v) }},
+			{"Pick[string]", func() int { _, n := Pick[string](2); return n }, func(b *mocker.Builder, v int) { b.Func(Pick[string]).Return("", v) }},
+			{"Pick[float64]", func() int { _, n := Pick[float64](2); return n }, func(b *mocker.Builder, v int) { b.Func(Pick[float64]).Return(0.0, v) }},
+			{"Pick[[2]int]", func() int { _, n := Pick[[2]int](2); return n }, func(b *mocker.Builder, v int) { b.Func(Pick[[2]int]).Return([2]int{}, v) }},
+		}
+		for round := 0; round < 3; round++ {
+			b := mocker.Create()
+			var perr interface{}
+			rep.Journal(map[string]interface{}{"part": "generics", "instantiation": "Pick[T] x4", "crashkey": "C06/generic-mock-kills-the-process:generic-function"})
+			func() {
+				defer func() { perr = recover() }()
+				for i := range pks {
+					k := (i + round) % len(pks)
+					pks[k].mock(b, 8200+k)
+				}
+			}()
+			rep.Eval(int64(2 * len(pks)))
+			rep.Class("generic/function-instantiations-mocked-together")
+			if perr != nil {
+				rep.Violate("C06/generic-mock-rejected", fmt.Sprintf("mocking four instantiations of the generic function Pick in one builder: %v", perr), nil)
+			} else {
+				for k, p := range pks {
+					if got := p.call(); got != 8200+k {
+						rep.Violate("C06/mocked-method-not-replaced", fmt.Sprintf("%s stubbed to give %d (with three other instantiations stubbed in the same builder) gives %d", p.name, 8200+k, got), nil)
+					}
+				}
+				if round == 2 {
+					// the handle asked for again: a new instruction through it changes that instantiation, nobody else
+					func() {
+						defer func() { perr = recover() }()
+						b.Func(Pick[string]).Apply(func(int) (string, int) { return "", 8301 })
+					}()
+					if got := [3]int{pks[1].call(), pks[0].call(), pks[2].call()}; perr != nil || got != [3]int{8301, 8200, 8202} {
+						rep.Violate("C06/mocked-method-not-replaced", fmt.Sprintf("an Apply through Func(Pick[string]) of the same builder: calls of Pick[string], Pick[int], Pick[float64] give %v, want [8301 8200 8202] (panic: %v)", got, perr), nil)
+					}
+				}
+			}
+			func() { defer func() { recover() }(); b.Reset() }()
+			for _, p := range pks {
+				if got := p.call(); got != 46 {
+					rep.Violate("C06/not-restored", fmt.Sprintf("after Reset of a builder that stubbed four instantiations of Pick, %s gives %d, want the original 46", p.name, got), nil)
+				}
 			}
 		}
 	}
